@@ -220,6 +220,11 @@ where
     pub fn read_at(&self, index: usize, reader: &Reader) -> Result<T> {
         let len = self.base.len();
         if likely(index < len) {
+            // `len` includes the pushed buffer: those values are not in the region yet.
+            let stored_len = self.stored_len();
+            if unlikely(index >= stored_len) {
+                return Ok(self.base.pushed()[index - stored_len].clone());
+            }
             Ok(self.unchecked_read_at(index, reader))
         } else {
             Err(Error::IndexTooHigh {
